@@ -267,6 +267,13 @@ def cmdOp (toks : List String) : Option String :=
   | ["t10op", name] => pure (match Std.lookup Std.t10Opcodes name with | some v => "ok " ++ toString v | none => "none")
   | ["t10sahome", name] => pure (match Std.lookup Std.t10ServiceActionHome name with | some v => "ok " ++ toString v | none => "none")
   | ["t10sa", name] => pure (match Std.lookup Std.t10ServiceActions name with | some v => "ok " ++ toString v | none => "none")
+  | ["t10ascq", code] => do
+    -- the T10 text of an ASC/ASCQ pair (asc*256+ascq) in the oracle's list of well-known assignments
+    let c ← code.toNat?
+    pure (match Std.ascqNames.find? (fun e => e.1 * 256 + e.2.1 == c) with | some e => "ok " ++ e.2.2 | none => "none")
+  | ["t10sensekey", k] => do
+    let k ← k.toNat?
+    pure (match Std.senseKeyNames.find? (fun e => e.1 == k) with | some e => "ok " ++ e.2 | none => "none")
   | ["samstatus", name] => pure (match Std.lookup Std.samStatus name with | some v => "ok " ++ toString v | none => "none")
   | ["samlen", v] => do
     let n ← v.toNat?
